@@ -264,6 +264,9 @@ func vkey(tag string) (*bec.PrivateKey, []byte) {
 	kb := vnondetBytes(tag, 32, 32)
 	vassume(kb[0] >= 1 && kb[0] <= 0x7f)
 	priv, _ := bec.PrivKeyFromBytes(bec.S256(), kb)
+	if vparam("UNC", 0) == 1 && vnondetBool(tag+"-uncompressed") {
+		return priv, priv.PubKey().SerialiseUncompressed()
+	}
 	return priv, priv.PubKey().SerialiseCompressed()
 }
 
@@ -311,7 +314,7 @@ func VH_C06_CheckSig() {
 		s, _ := priv.Sign(h)
 		sig = append(s.Serialise(), ht)
 		_, pub2 := vkey("other-key")
-		vassume(!vbytesEq(pub2, pub))
+		vassume(!vbytesEq(pub2[1:33], pub[1:33])) // another point (X differs; encodings may differ in form)
 		pub = pub2
 	case 3: // the empty signature
 		sig = []byte{}
